@@ -136,7 +136,13 @@ def shared_ir_case(r):
 
 FOREIGN = (("argparse", {"typ": "dict"}), ("argparse", {"typ": "list"}), ("argparse", {"typ": "Optional[dict]"}),
            ("class", {"typ": "dict", "default": "```{}```"}), ("function", {"typ": "Optional[List[str]]"}),
-           ("sqlalchemy", {"typ": "dict"}), ("argparse", {"typ": "Person"}), ("class", {"typ": "Callable or None"}))
+           ("sqlalchemy", {"typ": "dict"}), ("argparse", {"typ": "Person"}), ("class", {"typ": "Callable or None"}), ("docstring", {"typ": "Callable or None"}),
+           ("docstring", {"typ": "object or None"}), ("function", {"typ": "bytes or str"}), ("docstring", {"typ": "dict or None"}),
+           ("class", {"typ": "Person or None"}), ("docstring", {"typ": "type or None"}), ("docstring", {"typ": "name or None"}))
+
+
+VICTIMS = (("Callable", "Callable[[Exception], None]"), ("object", "Optional[Person]"), ("bytes", "Union[bytes, str]"),
+           ("Person", "Optional[Person]"), ("dict", "Dict[str, int]"), ("name", "str"), ("type", "Type[Person]"))
 
 
 def emit_after_parse_case(r):
@@ -172,6 +178,15 @@ def emit_after_parse_case(r):
             out.append(hops.emit(ir, fmt)[1])
         except Exception as e:
             out.append("%s raised %s" % (fmt, type(e).__name__))
+    # ... nor what a later parse reads: descriptions whose first sentence is one word that a learning table may know by now
+    import cdd.docstring.parse
+
+    for word, typ in VICTIMS:
+        doc = "Summary here.\n\n:param hook: %s. Invoked with the thing that ended it\n:type hook: ```%s```\n" % (word, typ)
+        try:
+            out.append(jdump(canon(cdd.docstring.parse.docstring(doc))))
+        except Exception as e:
+            out.append("victim %s raised %s" % (word, type(e).__name__))
     return "\n# ----\n".join(out)
 
 
